@@ -56,7 +56,7 @@ class ProtoRun {
     Rng opr;
     std::vector<Record> sibling[2];      // records captured from a sibling session (other keys), for cross-session injection
     // armed one-shot mutation for the next honest record of a direction
-    struct Armed { bool on = false; std::string kind; int64_t a = 0, b = 0; } armed[2];
+    struct Armed { bool on = false; std::string kind; int64_t a = 0, b = 0; int64_t skip = 0; } armed[2];   // skip: let that many honest records of the direction pass first
     bool setup_failed = false;
     std::string setup_detail;
     bool captured_reset = false;
